@@ -64,12 +64,12 @@ MULTI_ARRAY = [('emd.spectra.hilberthuang', {'infr', 'inam'}), ('emd.spectra.hol
 
 
 def run(ctx):
-    rule_shape_classes(ctx, 'C19.R1')
-    rule_layout_only(ctx, 'C19.R1')
-    rule_canonical_first(ctx, 'C19.R2')
-    rule_no_mutation(ctx, 'C19.R3')
-    rule_length_checks(ctx, 'C19.R4')
-    rule_no_module_state(ctx, 'C19.R5')
+    ctx.rule(rule_shape_classes, 'C19.R1')
+    ctx.rule(rule_layout_only, 'C19.R1')
+    ctx.rule(rule_canonical_first, 'C19.R2')
+    ctx.rule(rule_no_mutation, 'C19.R3')
+    ctx.rule(rule_length_checks, 'C19.R4')
+    ctx.rule(rule_no_module_state, 'C19.R5')
     l1.rule_lib_attrs(ctx, 'L1', ['emd.support.ensure_equal_dims', 'emd.support.ensure_vector',
                                   'emd.support.ensure_1d_with_singleton', 'emd.support.ensure_2d'], 'input validation')
 
@@ -342,6 +342,11 @@ def rule_length_checks(ctx, rid):
         else:
             ctx.violation(rid, fi, c, 'mismatched array lengths are no longer rejected by %s' % fi.name)
     rule_ensure_sites(ctx, rid)
+    rule_equal_dims_semantics(ctx, rid)
+
+
+def rule_equal_dims_semantics(ctx, rid):
+    P = ctx.P
     # the check itself must raise exactly on a mismatch: the path conditions of ensure_equal_dims are evaluated
     # concretely on representative shape lists (no repository code is run; see conceval.py)
     from ..conceval import ConcEval, Arr, Undecided
